@@ -459,8 +459,9 @@ static std::string handle_virt(const Sx& cs) {
       }
       if (!have) { vtxt = "(v skip)"; etxt = "(e skip)"; }
       else {
+        std::cerr << "@E " << (k - 1) << std::endl;
         Outcome eo = run_op(st, b, etarget, !quiet);
-        std::vector<std::string> keep = g_trace;   // (the eager run never touches the scripted objects)
+        std::cerr << "@V " << (k - 1) << std::endl;
         Outcome vo = run_op(st, b, vtarget, !quiet);
         if (vo.ok) { vr = vo.arr; vtxt = "(v ok " + ((eo.ok && eo.text == vo.text && !quiet) ? std::string("=") : vo.text) + ")"; }
         else vtxt = "(v err " + vo.err + ")";
@@ -511,7 +512,12 @@ static PartitionedArrayPtr split(const ContentPtr& c, const std::vector<int64_t>
   return std::make_shared<IrregularlyPartitionedArray>(parts, stops);
 }
 
-struct POut { bool ok = false; std::string err, text; PartitionedArrayPtr next; ContentPtr nexteager; };
+struct POut {
+  bool ok = false; std::string err, text;
+  PartitionedArrayPtr next; ContentPtr nexteager;
+  PartitionedArrayPtr pres;   // partitioned result of range / narrow / repartition
+  ContentPtr cres;            // eager result of the same
+};
 
 template <typename F>
 static void guarded(POut& o, F f) {
@@ -530,6 +536,7 @@ static POut part_op(const Sx& st, const PartitionedArrayPtr& p) {
     else if (op == "range" || op == "narrow") {
       PartitionedArrayPtr r = p->getitem_range(bound(st[1]), bound(st[2]), bound(st[3]));
       o.text = dump_parts(r);
+      o.pres = r;
       if (op == "narrow") o.next = r;
     }
     else if (op == "repartition") {
@@ -539,6 +546,7 @@ static POut part_op(const Sx& st, const PartitionedArrayPtr& p) {
       PartitionedArrayPtr r = p->repartition(target);
       o.text = dump_parts(r);
       o.next = r;
+      o.pres = r;
     }
     else if (op == "pidx") {
       int64_t pid = -7, ix = -7;
@@ -574,9 +582,10 @@ static POut eager_op(const Sx& st, const ContentPtr& c) {
       s.become_sealed();
       ContentPtr r = c->getitem(s);
       o.text = dump(r);
+      o.cres = r;
       if (op == "narrow") o.nexteager = r;
     }
-    else if (op == "repartition") o.text = dump(c);
+    else if (op == "repartition") { o.text = dump(c); o.cres = c; }
     else if (op == "tojson") o.text = codes(c->tojson(false, -1));
     else if (op == "len") o.text = std::to_string(c->length());
     else o.text = "na";
@@ -604,15 +613,33 @@ static std::string handle_part(const Sx& cs) {
   std::string out;
   for (size_t k = 1; k < ops.size(); k++) {
     const Sx& st = ops[k];
+    std::cerr << "@E " << (k - 1) << std::endl;
     POut eo = eager_op(st, eager);
+    std::cerr << "@P " << (k - 1) << std::endl;
     POut po = part_op(st, p);
+    std::cerr << "@Q " << (k - 1) << std::endl;
     POut qo = part_op(st, q);
+    // the eager result cut at the stops of the partitioned result (for a partition-by-partition comparison)
+    std::string es;
+    if (po.ok && eo.ok && po.pres.get() != nullptr && eo.cres.get() != nullptr) {
+      std::vector<int64_t> rs = dynamic_cast<const IrregularlyPartitionedArray*>(po.pres.get())->stops();
+      bool fits = !rs.empty() && rs.back() == eo.cres->length();
+      int64_t start = 0;
+      for (auto s : rs) { if (s < start) fits = false; start = s; }
+      if (!fits) es = " (es lengths-differ " + std::to_string(eo.cres->length()) + ")";
+      else {
+        es = " (es";
+        start = 0;
+        for (auto s : rs) { es += " " + dump(eo.cres->getitem_range_nowrap(start, s)); start = s; }
+        es += ")";
+      }
+    }
     if (po.ok && po.next.get() != nullptr && qo.ok && qo.next.get() != nullptr) {
       p = po.next; q = qo.next;
       if (eo.ok && eo.nexteager.get() != nullptr) eager = eo.nexteager;
     }
     if (k > 1) out += " ";
-    out += "(step " + show("p", po) + " " + show("e", eo) + " " + show("q", qo) + ")";
+    out += "(step " + show("p", po) + " " + show("e", eo) + " " + show("q", qo) + es + ")";
   }
   return out;
 }
